@@ -221,6 +221,15 @@ pub fn run(id: &str, o: &Oracle, tier: &str, seed: u64, w: &mut dyn Write) -> Op
             for _ in 0..1000 * scale {
                 out.ev(json!({"op":"enum_cmp","a":1 + rng.below(7462),"b":1 + rng.below(7462)}));
             }
+            // the Invalid member against real ones, both ways, and against itself
+            for _ in 0..300 * scale {
+                let inv = [0, 7463, 7464, 32768, 65535, 7463 + rng.below(58000)][rng.below(6) as usize];
+                let real = 1 + rng.below(7462);
+                out.ev(json!({"op":"enum_cmp","a":inv,"b":real}));
+                out.ev(json!({"op":"enum_cmp","a":real,"b":inv}));
+            }
+            out.ev(json!({"op":"enum_cmp","a":0,"b":65535}));
+            out.ev(json!({"op":"enum_cmp","a":7463,"b":0}));
         }
         "C08" => {
             for c in &o.cards {
@@ -469,6 +478,16 @@ pub fn run(id: &str, o: &Oracle, tier: &str, seed: u64, w: &mut dyn Write) -> Op
                                        "post":hilo_arr(&h.to_arr()),"acc":hilo_arr(&h.accessors()),"iter":hilo_arr(&h.iter_vec()),"first":hilo(h.first())}));
                     }
                 }
+            }
+            // constructors on arrays with blanks in leading / interior / trailing slots and words out of order
+            for k in 0..60 * scale {
+                let n = 2 + (k % 6) as usize;
+                let obj = 1000 + k;
+                let init: Vec<u32> = (0..n).map(|i| match rng.below(3) { 0 => 0, 1 => o.cards[((k as usize) * 7 + i * 5) % 52].w, _ => near_miss(o, &mut rng) }).collect();
+                let parts = k % 2 == 0;
+                let h = if parts { Hand::from_parts(&init) } else { Hand::from_words(&init) };
+                out.raw(json!({"op": if parts {"c_parts"} else {"c_from"},"obj":obj,"words":hilo_arr(&init),
+                               "post":hilo_arr(&h.to_arr()),"acc":hilo_arr(&h.accessors()),"iter":hilo_arr(&h.iter_vec())}));
             }
             for n in 2..=7u64 {
                 out.ev(json!({"op":"c_default","n":n}));
